@@ -133,6 +133,7 @@ def check_coder(prop, tier, seed):
         cov["replay"].append(rep)
         with open(tr) as f:
             cov["samples"] = [json.loads(next(f)) for _ in range(3)][1:]
+        corrupt_for_selftest([tr], "TraceCoder.tla")
         v = validate_trace(work, tr, T_MON[prop], module="TraceCoder.tla")
         cov["traces_validated_against_impl"] = 1
         if v["violated"]:
